@@ -117,12 +117,17 @@ func (exec *Executor) execMethodSize(
 	case []any:
 		size = len(value)
 	default:
-		if !exec.autoWrap() && !exec.ignoreStructuralErrors {
-			// https://github.com/postgres/postgres/blob/REL_18_3/src/backend/utils/adt/jsonpath_exec.c#L1112
-			return exec.returnVerboseError(fmt.Errorf(
-				"%w: jsonpath item method %v can only be applied to an array",
-				ErrVerbose, node.Name(),
-			))
+		if !exec.autoWrap() {
+			if !exec.ignoreStructuralErrors {
+				// https://github.com/postgres/postgres/blob/REL_18_3/src/backend/utils/adt/jsonpath_exec.c#L1112
+				return exec.returnVerboseError(fmt.Errorf(
+					"%w: jsonpath item method %v can only be applied to an array",
+					ErrVerbose, node.Name(),
+				))
+			}
+			// Below .** in strict mode: skip the item, it is not an array of
+			// one element as it would be in lax mode.
+			return statusNotFound, nil
 		}
 	}
 	return exec.executeNextItem(ctx, node, nil, int64(size), found)
